@@ -33,6 +33,90 @@ theorem World.run_snd (w : World V) (steps : List Step) : (w.run steps).2 = step
     simp only [World.run, List.map_cons]
     rw [World.step_fst, ih]
 
+/-! ### live iterators: any interleaving -/
+
+theorem mem_setNth {β : Type} (l : List β) (k : Nat) (b x : β) (h : x ∈ setNth l k b) :
+    x = b ∨ x ∈ l := by
+  induction l generalizing k with
+  | nil => simp [setNth] at h
+  | cons a t ih =>
+    cases k with
+    | zero =>
+      simp only [setNth, List.mem_cons] at h
+      rcases h with h | h
+      · exact Or.inl h
+      · exact Or.inr (List.mem_cons_of_mem _ h)
+    | succ k =>
+      simp only [setNth, List.mem_cons] at h
+      rcases h with h | h
+      · exact Or.inr (by rw [h]; exact List.mem_cons_self)
+      · rcases ih k h with h' | h'
+        · exact Or.inl h'
+        · exact Or.inr (List.mem_cons_of_mem _ h')
+
+/-- the invariant of every live iterator: what it has yielded, followed by what it will still yield,
+    is the full iteration of its family -/
+def IterOK (w : World V) (it : LiveIter V) : Prop :=
+  ∀ f, w.fams[it.fam]? = some f → it.done ++ f.iterFrom it.rest = f.iter
+
+theorem IState.step_world (s : IState V) (st : IStep) : (s.step st).1.world = s.world := by
+  cases st with
+  | start i => rfl
+  | next k =>
+    simp only [IState.step]
+    cases s.iters[k]? with
+    | none => rfl
+    | some it =>
+      simp only []
+      cases hr : it.rest <;> rfl
+  | get i name => rfl
+  | len i => rfl
+
+theorem IState.step_ok (s : IState V) (st : IStep) (h : ∀ it ∈ s.iters, IterOK s.world it) :
+    ∀ it ∈ (s.step st).1.iters, IterOK s.world it := by
+  cases st with
+  | start i =>
+    simp only [IState.step, List.mem_append, List.mem_singleton]
+    rintro it (hit | hit)
+    · exact h it hit
+    · subst hit
+      intro f hf
+      simp only [hf, List.nil_append]
+      rfl
+  | next k =>
+    simp only [IState.step]
+    cases hk : s.iters[k]? with
+    | none => exact h
+    | some it0 =>
+      have hm : it0 ∈ s.iters := List.mem_of_getElem? hk
+      simp only []
+      cases hr : it0.rest with
+      | nil => exact h
+      | cons key rest =>
+        intro it hit
+        simp only [] at hit
+        rcases mem_setNth _ _ _ _ hit with hit | hit
+        · subst hit
+          intro f hf
+          have h0 := h it0 hm f hf
+          rw [hr] at h0
+          simp only [hf, List.append_assoc, List.singleton_append]
+          exact h0
+        · exact h it hit
+  | get i name => exact h
+  | len i => exact h
+
+theorem IState.run_ok (s : IState V) (steps : List IStep) (h : ∀ it ∈ s.iters, IterOK s.world it) :
+    (s.run steps).1.world = s.world ∧ ∀ it ∈ (s.run steps).1.iters, IterOK s.world it := by
+  induction steps generalizing s with
+  | nil => exact ⟨rfl, h⟩
+  | cons st rest ih =>
+    simp only [IState.run]
+    have hw := IState.step_world s st
+    have := ih (s.step st).1 (by rw [hw]; exact IState.step_ok s st h)
+    rw [hw] at this
+    exact this
+
 /-! ### DOI lookups -/
 
 /-- the DOIs the two module-level maps know -/
